@@ -1102,6 +1102,9 @@ static void select_union_member(Initializer *init, Member *mem) {
   if (init->mem && init->mem != mem)
     init->children[mem->idx] = new_initializer(mem->ty, false);
   init->mem = mem;
+
+  // An earlier initializer for the whole union is overridden.
+  init->expr = NULL;
 }
 
 // When set, designation() initializes the designated subobject only
